@@ -352,6 +352,70 @@ func genC13Purge(g *Gen) error {
 	}
 	_ = sd // already emitted as steps_setDelMergeSet by the first group
 
+	// ---- SHOW TAG VALUES walks tag->tsids rows (engine/index/tsi/search.go) ---------------------------
+	mx, err := g.Const("engine/index/mergeindex/merger.go", "MaxTSIDsPerRow")
+	if err != nil {
+		return err
+	}
+	g.P("/-- mergeindex.MaxTSIDsPerRow: a merged tag->tsids row holds at most this many tsids -/")
+	g.P("def maxTSIDsPerRow : Nat := %s", mx)
+	tv, err := g.Func("engine/index/tsi/search.go", "indexSearch.searchTagValuesBySingleKey")
+	if err != nil {
+		return err
+	}
+	var scan *ast.ForStmt
+	for _, st := range tv.Body.List {
+		if f, ok := st.(*ast.ForStmt); ok && strings.Contains(g.Src(f.Cond), "NextItem()") {
+			scan = f
+		}
+	}
+	if scan == nil {
+		return fmt.Errorf("searchTagValuesBySingleKey: scan loop not found")
+	}
+	var scanSteps []string
+	gate, record, full, seek := -1, -1, -1, -1
+	fullCond := ""
+	for i, st := range scan.Body.List {
+		src := g.Src(st)
+		scanSteps = append(scanSteps, src)
+		switch x := st.(type) {
+		case *ast.IfStmt:
+			if g.Src(x.Cond) == "!isExpect" && hasContinue(x.Body) && gate < 0 {
+				gate = i
+			}
+			if strings.Contains(g.Src(x.Cond), "MaxTSIDsPerRow") && hasContinue(x.Body) {
+				full, fullCond = i, g.Src(x.Cond)
+			}
+		case *ast.AssignStmt:
+			if strings.HasPrefix(src, "tagValueMap[") {
+				record = i
+			}
+		case *ast.ExprStmt:
+			if src == "ts.Seek(kb.B)" {
+				seek = i
+			}
+		}
+	}
+	g.StrList("steps_tagValuesScanLoop", scanSteps)
+	g.P("def src_tagValuesFullRowCond : String := %s", leanStr(fullCond))
+	// the jump to the next tag value after a full row is reached only through the statement that records the
+	// value: rows without a wanted tsid leave the loop body before it (`if !isExpect { continue }`), the record is
+	// an unconditional statement of the loop body, the full-row test and the seek come after it
+	boolDef("tagValuesSeekGuardedByRecord", gate >= 0 && gate < record && record < full && full < seek,
+		"SHOW TAG VALUES jumps to the next tag value after a full row only when it has recorded the value of that row")
+	boolDef("tagValuesSeeksAfterFullRow", full >= 0 && seek > full && strings.HasPrefix(fullCond, "mp.TSIDsLen() < "),
+		"a row with fewer than MaxTSIDsPerRow tsids is followed by the next row, a full one by a seek past its tag value")
+	for _, f := range [][3]string{
+		{"engine/index/mergeindex/parser.go", "BasicRowParser.IsExpectedTag", "steps_isExpectedTag"},
+		{"engine/index/tsi/search.go", "indexSearch.searchTagValues", "steps_searchTagValues"},
+	} {
+		s, _, err := stmts(f[0], f[1])
+		if err != nil {
+			return err
+		}
+		g.StrList(f[2], s)
+	}
+
 	// ---- the store side of the drops (engine/engine_ddl.go, engine/engine.go) ---------------------
 	for _, f := range [][3]string{
 		{"engine/engine_ddl.go", "EngineImpl.DropRetentionPolicy", "steps_engineDropRetentionPolicy"},
